@@ -12,7 +12,7 @@ Consume(e) ==
   \/ /\ e.ev = "handler_doc" /\ e.n = cur.n /\ e.op = cur.op   \* the documented operation is the one that ran
      /\ enteredNow' = TRUE /\ UNCHANGED <<cur, defs>>
   \/ /\ e.ev = "doc_response" /\ e.n = cur.n
-     /\ RequestOk(defs, cur @@ [expect_handler_error |-> cur.op \in {"doc_fail", "doc_custom", "doc_custom_hdr", "doc_custom_fussy", "doc_plain_hdr"}],
+     /\ RequestOk(defs, cur @@ [expect_handler_error |-> cur.op \in {"doc_fail", "doc_custom", "doc_gadget", "doc_custom_hdr", "doc_custom_fussy", "doc_plain_hdr"}],
                   e.status, enteredNow) = TRUE
      /\ ResponseOk(defs, e) = TRUE
      /\ UNCHANGED <<cur, enteredNow, defs>>
